@@ -594,10 +594,12 @@ def _map(v, f, in_set=False):
     return f(v, in_set)
 
 
-def n_time_in_set(v, in_set):
-    """datetime.time set members are hashed through whole seconds without tzinfo"""
+def n_time_tz_in_set(v, in_set):
+    """datetime.time set members are hashed as seconds since midnight: tzinfo is lost
+    (the microsecond part of the old finding C02-TIME-IN-SET is fixed in /repo 82f0543 and is
+    deliberately NOT normalised away: if it comes back it is a VIOLATION)"""
     if in_set and isinstance(v, datetime.time):
-        return v.replace(microsecond=0, tzinfo=None)
+        return v.replace(tzinfo=None)
     return v
 
 
@@ -623,7 +625,7 @@ def n_empty_array(v, in_set):
     return v
 
 
-NORMALISERS = {"C02-TIME-IN-SET": n_time_in_set, "C02-NAIVE-AWARE": n_naive_is_utc,
+NORMALISERS = {"C02-TIME-TZ-IN-SET": n_time_tz_in_set, "C02-NAIVE-AWARE": n_naive_is_utc,
                "C02-SET-MEMBER-ORDER": n_member_order, "C02-EMPTY-ARRAY-SHAPE": n_empty_array}
 
 
@@ -687,7 +689,7 @@ def replay_witnesses(ctx):
     import numpy as np
     us = datetime.timezone.utc
     n = datetime.datetime(2024, 5, 17, 22, 15, 34)
-    witnesses = {"C02-TIME-IN-SET": ({datetime.time(1, 2, 3, 5)}, {datetime.time(1, 2, 3, 6)}),
+    witnesses = {"C02-TIME-TZ-IN-SET": ({datetime.time(1, 2, 3, tzinfo=us)}, {datetime.time(1, 2, 3, tzinfo=datetime.timezone(datetime.timedelta(hours=2)))}),
                  "C02-NAIVE-AWARE": (n, n.replace(tzinfo=us)),
                  "C02-SET-MEMBER-ORDER": ({(1, 2)}, {(2, 1)}),
                  "C02-EMPTY-ARRAY-SHAPE": (np.zeros((0, 3)), np.zeros((0, 2)))}
@@ -703,6 +705,9 @@ def replay_witnesses(ctx):
     if r1 != {} or sorted(r2.keys()) != ["set_item_added", "set_item_removed"] or r3 != {}:
         ctx.break_("correspondence", {"name": "DeepHash table witnesses", "detail": "the implementation no longer behaves like C02_visiting_order_observable / "
                                       "C02_table_transparent_refuted; Diff/DiffMemo.v is out of date", "impl": [repr(r1), repr(r2), repr(r3)]})
+    # fixed:82f0543 (microseconds of time set members): must stay fixed
+    for a, b in (({datetime.time(1, 2, 3, 5)}, {datetime.time(1, 2, 3, 6)}), ({(datetime.time(1, 2, 3, 5), 1)}, {(datetime.time(1, 2, 3, 6), 1)})):
+        run_cfg(ctx, a, b, dict(view="text", verbose_level=1), False, False, "verdict_exotic")
     if "K1" in open_keys:
         r = DeepDiff({"NONE"}, {None})
         if r != {}:
